@@ -1,5 +1,395 @@
-"""C01 tier P: *_combined.apply, ParamViewer.get and _MainModel.expected_data for symbolic shapes (to be filled)."""
+"""C01 tier P - unbounded shapes: the seven *_combined.apply methods and ParamViewer.get under their class invariants.
+
+For symbolic numbers of modifiers M, samples S, batch rows A, bins B and parameters NP (no bound) the object state is
+the ABSTRACT state allowed by the class invariant (DESIGN Appendix A: masks are 0/1 tensors of shape (M,S,A,B) that do not
+depend on the batch row, the index fields address row a of the flattened parameter tensor: a*NP + k(m,b), defaults are
+ones / zeros, the parameter viewer returns the parameters named after the modifiers), the REAL apply / get source is
+executed symbolically on it, and the result is proved element-wise, at a generic index, to be
+      where(mask[m,s,b],  value determined by the parameter the modifier is named after,  neutral element)
+- the 'determined only by the value of the parameter the modifier is named after', 'samples that do not declare a
+modifier are untouched' and row-locality (C10) clauses of the statement, for every shape.
+That the constructors establish the invariant is NOT proved here: it is what the skeleton tier (C01_rates, C12) executes."""
+import z3
+
+from pyvc.tcheck import tensor_obligation
+from pyvc.tensor import PT
+from pyvc.values import I, R, B, NativeFn, Rec
+from .common import typed_opaque
+
+MODS = "modifiers"
+
+
+def _dims(eng, batched):
+    M, S, Bn, NP = (z3.Int(n) for n in ("M", "S", "B", "NP"))
+    for d in (M, S, Bn, NP):
+        eng.assume(d >= 1)
+    if batched:
+        A = z3.Int("A")
+        eng.assume(A >= 1)
+    else:
+        A = 1
+    return M, S, A, Bn, NP
+
+
+def _pars(batched, A, NP):
+    if batched:
+        P = z3.Function("par", I, I, R)
+        return PT((A, NP), lambda i: P(i[0], i[1]), "real"), (lambda a, k: P(a, k))
+    P = z3.Function("par", I, R)
+    return PT((NP,), lambda i: P(i[0]), "real"), (lambda a, k: P(k))
+
+
+def _iv(x):
+    return x if z3.is_expr(x) else z3.IntVal(x)
+
+
+def _viewer(eng, M, A, NP, batched, par_at, with_indices):
+    """ParamViewer as seen by an applier (its own contract is proved in t_paramviewer): get(pars[, indices]) returns the
+    parameters of the selected sets, scalar sets: shape (M,) unbatched / (M, A) batched / (M, 1) when called with the
+    transposed index column of an interpolating applier"""
+    IDX = z3.Function("par_index_of_modifier", I, I)
+
+    def get(e, rec):
+        if len(rec.args) > 1 or "indices" in rec.kwargs:        # unbatched interpolating appliers pass self.indices, an (M, 1) column
+            return PT((M, 1), lambda i: par_at(_iv(0), IDX(i[0])), "real")
+        if batched:
+            return PT((M, A), lambda i: par_at(i[1], IDX(i[0])), "real")
+        return PT((M,), lambda i: par_at(_iv(0), IDX(i[0])), "real")
+    pv = typed_opaque(eng, "param_viewer", {"get": get})
+    eng.path.__dict__.setdefault("opaque_attrs", {})[(pv.get_id(), "index_selection")] = [1]      # non-empty selection
+    eng.path.__dict__["opaque_attrs"][(pv.get_id(), "indices_concatenated")] = PT((M,), lambda i: IDX(i[0]), "int")
+    return pv, IDX
+
+
+def _mask(M, S, A, Bn, name="declares"):
+    D = z3.Function(name, I, I, I, B)           # modifier m is declared by sample s in bin b (batch independent)
+    mreal = PT((M, S, A, Bn), lambda i: z3.If(D(i[0], i[1], i[3]), z3.RealVal(1), z3.RealVal(0)), "real")
+    mbool = PT((M, S, A, Bn), lambda i: D(i[0], i[1], i[3]), "bool")
+    return D, mreal, mbool
+
+
+def _const(shape, v):
+    return PT(shape, lambda i: z3.RealVal(v), "real")
+
+
+def _run(T, eng, key, build, spec, batched, tag):
+    f = T.under_contract(eng, key)
+    box = {}
+
+    def thunk():
+        obj, pars, ctx = build()
+        box["ctx"] = ctx
+        return eng.call_function(f, [obj, pars], {}, force_inline=True)
+    results = eng.explore(thunk)
+    T.absorb(eng, results)
+    ok_paths = 0
+    for k, r in enumerate(results):
+        sfx = f"@{tag},path{k}"
+        if r.kind != "return":
+            T.fail(f"{key}#no-raise{sfx}", f"raises {r.exc_name} {getattr(r.value, 'eargs', '')}", kind="raises")
+            continue
+        ok_paths += 1
+        M, S, A, Bn = box["ctx"]["dims"]
+        tensor_obligation(T, eng, f"{key}#post.masked-value-of-the-named-parameter{sfx}", r.path.hyps(), r.value, (M, S, A, Bn),
+                          lambda idx: spec(box["ctx"], idx))
+    (T.ok if ok_paths else T.fail)(f"{key}#paths.returns@{tag}", *([] if ok_paths else ["no returning path"]), kind="raises")
+
+
+def _policy():
+    return {"inline": [f"{MODS}/"]}
+
+
+def t_scalar_factor(T, mod, batched):
+    """normfactor / lumi: factor = the parameter itself where declared, 1 elsewhere"""
+    key = f"{MODS}/{mod}.py::{mod}_combined.apply"
+    eng = T.engine(_policy())
+    cls = eng.module(f"{MODS}/{mod}.py").get(f"{mod}_combined")
+
+    def build():
+        M, S, A, Bn, NP = _dims(eng, batched)
+        if mod == "lumi":
+            M = 1
+        pars, par_at = _pars(batched, A, NP)
+        pv, IDX = _viewer(eng, M, A, NP, batched, par_at, False)
+        D, mreal, mbool = _mask(M, S, A, Bn)
+        o = Rec(cls)
+        o.attrs.update({"batch_size": A if batched else None, "param_viewer": pv, f"{mod}_mask": mreal, f"{mod}_mask_bool": mbool,
+                        f"{mod}_default": _const((M, S, A, Bn), 1)})
+        return o, pars, {"dims": (M, S, A, Bn), "D": D, "IDX": IDX, "par_at": par_at}
+
+    def spec(c, idx):
+        m, s, a, b = idx
+        return z3.If(c["D"](m, s, b), c["par_at"](a, c["IDX"](m)), z3.RealVal(1))
+    _run(T, eng, key, build, spec, batched, "batched" if batched else "unbatched")
+
+
+def t_interpolating(T, mod, batched):
+    """normsys / histosys: where declared the value is the interpolator's output for alpha = the parameter named after the modifier"""
+    key = f"{MODS}/{mod}.py::{mod}_combined.apply"
+    eng = T.engine(_policy())
+    cls = eng.module(f"{MODS}/{mod}.py").get(f"{mod}_combined")
+    neutral = 1 if mod == "normsys" else 0
+    F = z3.Function("interpolated", I, I, I, R, R)        # (modifier, sample, bin, alpha) -> value: the C03 contract
+
+    def build():
+        M, S, A, Bn, NP = _dims(eng, batched)
+        pars, par_at = _pars(batched, A, NP)
+        pv, IDX = _viewer(eng, M, A, NP, batched, par_at, True)
+        D, mreal, mbool = _mask(M, S, A, Bn)
+
+        def interp(alphasets):
+            al = alphasets
+            return PT((M, S, A, Bn), lambda i: F(i[0], i[1], i[3], al.fn((i[0], i[2]))), "real")
+        o = Rec(cls)
+        o.attrs.update({"batch_size": A if batched else None, "param_viewer": pv, f"{mod}_mask": mbool, f"{mod}_default": _const((M, S, A, Bn), neutral),
+                        "interpolator": NativeFn("interpolator-contract", interp), "interpcode": "code4" if mod == "normsys" else "code4p"})
+        if not batched:
+            o.attrs["indices"] = PT((M, 1), lambda i: IDX(i[0]), "int")
+        return o, pars, {"dims": (M, S, A, Bn), "D": D, "IDX": IDX, "par_at": par_at}
+
+    def spec(c, idx):
+        m, s, a, b = idx
+        return z3.If(c["D"](m, s, b), F(m, s, b, c["par_at"](a, c["IDX"](m))), z3.RealVal(neutral))
+    _run(T, eng, key, build, spec, batched, "batched" if batched else "unbatched")
+
+
+def t_binwise(T, mod, batched):
+    """shapesys / staterror / shapefactor: where declared the factor is the parameter component the index field assigns to
+    (modifier, bin) IN THE SAME BATCH ROW; 1 elsewhere"""
+    key = f"{MODS}/{mod}.py::{mod}_combined.apply"
+    eng = T.engine(_policy())
+    cls = eng.module(f"{MODS}/{mod}.py").get(f"{mod}_combined")
+    KF = z3.Function("component_of", I, I, I)             # (modifier, bin) -> parameter index in [0, NP)
+
+    def build():
+        M, S, A, Bn, NP = _dims(eng, batched)
+        pars, par_at = _pars(batched, A, NP)
+        pv, IDX = _viewer(eng, M, A, NP, batched, par_at, False)
+        D, mreal, mbool = _mask(M, S, A, Bn)
+        m_, b_ = z3.Ints("qm qb")
+        eng.assume(z3.ForAll([m_, b_], z3.And(KF(m_, b_) >= 0, KF(m_, b_) < NP)))
+        from pyvc.tensor import flat_index
+        if batched:
+            af = PT((M, A, Bn), lambda i: flat_index(i[1], NP, KF(i[0], i[2])), "int")
+        else:
+            af = PT((M, A, Bn), lambda i: KF(i[0], i[2]), "int")
+        o = Rec(cls)
+        o.attrs.update({"batch_size": A if batched else None, "param_viewer": pv, f"{mod}_mask": mbool, f"{mod}_default": _const((M, S, A, Bn), 1),
+                        "access_field": af, "sample_ones": _const((S,), 1)})
+        return o, pars, {"dims": (M, S, A, Bn), "D": D, "KF": KF, "par_at": par_at}
+
+    def spec(c, idx):
+        m, s, a, b = idx
+        return z3.If(c["D"](m, s, b), c["par_at"](a, c["KF"](m, b)), z3.RealVal(1))
+    _run(T, eng, key, build, spec, batched, "batched" if batched else "unbatched")
+
+
+def t_paramviewer(T, batched):
+    """ParamViewer.get: gather of the flattened parameter tensor at the stored indices (shape (N,) unbatched, (N, A) batched,
+    where the index table addresses row a: a*NP + k(n)); with an explicit index argument that argument is used"""
+    key = "parameters/paramview.py::ParamViewer.get"
+    eng = T.engine({"inline": ["parameters/paramview.py::"]})
+    f = T.under_contract(eng, key)
+    cls = eng.module("parameters/paramview.py").get("ParamViewer")
+    KN = z3.Function("selected_index", I, I)
+    box = {}
+
+    def thunk():
+        from pyvc.tensor import flat_index
+        N, NP = z3.Ints("N NP")
+        eng.assume(N >= 1)
+        eng.assume(NP >= 1)
+        n_ = z3.Int("qn")
+        eng.assume(z3.ForAll([n_], z3.And(KN(n_) >= 0, KN(n_) < NP)))
+        A = z3.Int("A") if batched else 1
+        if batched:
+            eng.assume(A >= 1)
+        pars, par_at = _pars(batched, A, NP)
+        o = Rec(cls)
+        o.attrs["index_selection"] = [1]
+        if batched:
+            o.attrs["indices_concatenated"] = PT((N, A), lambda i: flat_index(i[1], NP, KN(i[0])), "int")
+        else:
+            o.attrs["indices_concatenated"] = PT((N,), lambda i: KN(i[0]), "int")
+        box.update(N=N, A=A, par_at=par_at)
+        out = {"default": eng.call_function(f, [o, pars], {}, force_inline=True)}
+        if not batched:
+            col = PT((N, 1), lambda i: KN(i[0]), "int")
+            out["explicit"] = eng.call_function(f, [o, pars, col], {}, force_inline=True)
+        o2 = Rec(cls)
+        o2.attrs["index_selection"] = []
+        out["empty"] = eng.call_function(f, [o2, pars], {}, force_inline=True)
+        return out
+    results = eng.explore(thunk)
+    T.absorb(eng, results)
+    tag = "batched" if batched else "unbatched"
+    for k, r in enumerate(results):
+        sfx = f"@{tag},path{k}"
+        if r.kind != "return":
+            T.fail(f"{key}#no-raise{sfx}", f"raises {r.exc_name}", kind="raises")
+            continue
+        N, A, par_at = box["N"], box["A"], box["par_at"]
+        if batched:
+            tensor_obligation(T, eng, f"{key}#post.selected-parameters-of-each-row{sfx}", r.path.hyps(), r.value["default"], (N, A), lambda idx: par_at(idx[1], KN(idx[0])))
+        else:
+            tensor_obligation(T, eng, f"{key}#post.selected-parameters{sfx}", r.path.hyps(), r.value["default"], (N,), lambda idx: par_at(_iv(0), KN(idx[0])))
+            tensor_obligation(T, eng, f"{key}#post.explicit-index-column{sfx}", r.path.hyps(), r.value["explicit"], (N, 1), lambda idx: par_at(_iv(0), KN(idx[0])))
+        ok = r.value["empty"] is None
+        (T.ok if ok else T.fail)(f"{key}#post.none-without-selection{sfx}", *([] if ok else ["returned a value"]))
 
 
 def applier_tasks(tier):
-    return []
+    out = []
+    for batched in (False, True):
+        tag = "batched" if batched else "unbatched"
+        for mod in ("normfactor", "lumi"):
+            out.append((f"tierP[{mod},{tag}]", (lambda m, b: lambda T: t_scalar_factor(T, m, b))(mod, batched)))
+        for mod in ("normsys", "histosys"):
+            out.append((f"tierP[{mod},{tag}]", (lambda m, b: lambda T: t_interpolating(T, m, b))(mod, batched)))
+        for mod in ("shapesys", "staterror", "shapefactor"):
+            out.append((f"tierP[{mod},{tag}]", (lambda m, b: lambda T: t_binwise(T, m, b))(mod, batched)))
+        out.append((f"tierP[ParamViewer.get,{tag}]", (lambda b: lambda T: t_paramviewer(T, b))(batched)))
+    return out
+
+
+# ---------------------------------------------------------------- _MainModel.expected_data for any number of modifiers / samples / bins
+FACTOR_TYPES = ["normsys", "normfactor", "shapesys", "shapefactor", "staterror", "lumi"]
+
+
+def t_expected_data(T, batched, present, clip):
+    """under the appliers' contracts (each returns a tensor (M_k, S, A, B) or None) the by-sample rate is
+         [prod_k prod_{m < M_k} factor_k(m,s,a,b)] * (nominal(s,b) + sum_{m < M_h} delta(m,s,a,b))   (then the optional per-sample clip
+       where the sample exists), and the reported rate is its sum over the samples (then the optional per-bin clip)"""
+    from pyvc.solver import SumF, ProdF
+    key = "pdf.py::_MainModel.expected_data"
+    eng = T.engine({"inline": ["pdf.py::_MainModel."]})
+    f = T.under_contract(eng, key)
+    T.under_contract(eng, "pdf.py::_MainModel.modifications")
+    cls = eng.module("pdf.py").get("_MainModel")
+    box = {}
+
+    def thunk():
+        S, Bn, NP = (z3.Int(n) for n in ("S", "B", "NP"))
+        for d in (S, Bn, NP):
+            eng.assume(d >= 1)
+        A = z3.Int("A") if batched else 1
+        if batched:
+            eng.assume(A >= 1)
+        pars, _ = _pars(batched, A, NP)
+        NOM = z3.Function("nominal", I, I, R)
+        PRES = z3.Function("sample_present", I, I, B)
+        fns, dims, appliers = {}, {}, {}
+        for k in ["histosys"] + FACTOR_TYPES:
+            Mk = z3.Int(f"M_{k}")
+            eng.assume(Mk >= 1)
+            Fk = z3.Function(f"applied_{k}", I, I, I, I, R)
+            fns[k], dims[k] = Fk, Mk
+
+            def mk(k, Mk, Fk):
+                def apply(e, rec):
+                    if k not in present:
+                        return None
+                    return PT((Mk, S, A, Bn), lambda i: Fk(i[0], i[1], i[2], i[3]), "real")
+                return apply
+            ap = typed_opaque(eng, f"applier_{k}", {"apply": mk(k, Mk, Fk)})
+            appliers[k] = ap
+        o = Rec(cls)
+        cs = z3.Real("clip_sample") if clip else None
+        cb = z3.Real("clip_bin") if clip else None
+        o.attrs.update({"batch_size": A if batched else None, "clip_sample_data": cs, "clip_bin_data": cb, "modifiers_appliers": appliers,
+                        "_delta_mods": ["histosys"], "_factor_mods": list(FACTOR_TYPES),
+                        "nominal_rates": PT((1, S, A, Bn), lambda i: NOM(i[1], i[3]), "real"),
+                        "sample_mask": PT((S, A, Bn), lambda i: PRES(i[0], i[2]), "bool")})
+        box.update(S=S, A=A, Bn=Bn, NOM=NOM, PRES=PRES, fns=fns, dims=dims, cs=cs, cb=cb)
+        by = eng.call_function(f, [o, pars], {"return_by_sample": True}, force_inline=True)
+        tot = eng.call_function(f, [o, pars], {}, force_inline=True)
+        return by, tot
+    results = eng.explore(thunk)
+    T.absorb(eng, results)
+    tag = f"{'batched' if batched else 'unbatched'},present={'+'.join(sorted(present)) or 'none'}{',clip' if clip else ''}"
+    for k, r in enumerate(results):
+        sfx = f"@{tag},path{k}"
+        if r.kind != "return":
+            T.fail(f"{key}#no-raise{sfx}", f"raises {r.exc_name} {getattr(r.value, 'eargs', '')}", kind="raises")
+            continue
+        by, tot = r.value
+        S, A, Bn, NOM, PRES, fns, dims, cs, cb = (box[x] for x in ("S", "A", "Bn", "NOM", "PRES", "fns", "dims", "cs", "cb"))
+        hy = r.path.hyps()
+
+        def by_spec(s, a, b):
+            m = z3.Int("m_spec")
+            add = NOM(s, b)
+            if "histosys" in present:
+                add = add + SumF(dims["histosys"], z3.Lambda([m], fns["histosys"](m, s, a, b)))
+            val = add
+            for kk in FACTOR_TYPES:
+                if kk in present:
+                    val = ProdF(dims[kk], z3.Lambda([m], fns[kk](m, s, a, b))) * val
+            if cs is not None:
+                val = z3.If(PRES(s, b), z3.If(val < cs, cs, val), val)
+            return val
+        # the spec's reductions must be known to the congruence pass
+        by_shape = (A, S, Bn) if batched else (S, Bn)
+        spec_fn = (lambda idx: by_spec(idx[1], idx[0], idx[2])) if batched else (lambda idx: by_spec(idx[0], z3.IntVal(0), idx[1]))
+        _register_spec_reductions(eng)
+        tensor_obligation(T, eng, f"{key}#post.by-sample-rate-is-product-of-factors-times-nominal-plus-deltas{sfx}", hy, by, by_shape, spec_fn)
+        # total: the reported rate is ONE reduction over the sample axis whose body is the by-sample rate (then the per-bin clip);
+        # checked on the reduction node itself at a generic sample index (no nested quantifier)
+        gi = [z3.Int(f"g{k}") for k in range(2 if batched else 1)]
+        a, b = (gi[0], gi[1]) if batched else (z3.IntVal(0), gi[0])
+        bounds = [z3.And(x >= 0, x < d) for x, d in zip(gi, (A, Bn) if batched else (Bn,))]
+        okshape = isinstance(tot, PT) and len(tot.shape) == len(gi)
+        val = tot.fn(tuple(gi)) if okshape else None
+        node = None
+        if okshape:
+            cands = [t for t in _sum_terms(val) if t.get_id() in eng.reductions and eng.reductions[t.get_id()] is not True]
+            node = eng.reductions[cands[0].get_id()] if len(cands) == 1 else None
+        if node is None or node.kind != "sum":
+            T.fail(f"{key}#post.rate-is-the-sum-over-samples-then-bin-clip{sfx}", "the reported rate is not a single sum over the sample axis", kind="structure")
+        else:
+            s_ = node.var
+            body_want = by.fn((a, s_, b)) if batched else by.fn((s_, b))
+            T.ob(eng, f"{key}#post.rate-sums-the-by-sample-rates-over-all-samples{sfx}", hy + bounds + [s_ >= 0, s_ < S],
+                 z3.And(node.n == S, node.body == eng.to_real(body_want)))
+            red = node.term
+            want = z3.If(red < cb, cb, red) if cb is not None else red
+            T.ob(eng, f"{key}#post.then-the-per-bin-clip{sfx}", hy + bounds, eng.to_real(val) == want)
+    if not results:
+        T.fail(f"{key}#no-raise@{tag}", "no path", kind="raises")
+
+
+def _sum_terms(t):
+    out, seen, stack = [], set(), [t]
+    while stack:
+        x = stack.pop()
+        if not z3.is_expr(x) or x.get_id() in seen:
+            continue
+        seen.add(x.get_id())
+        if z3.is_app(x):
+            if x.decl().name() == "SumF":
+                out.append(x)
+                continue
+            stack.extend(x.children())
+    return out
+
+
+def _register_spec_reductions(eng):
+    """the congruence pass only looks at reductions the engine knows; specification-side SumF / ProdF terms are found syntactically"""
+    if not getattr(eng, "reductions", None):
+        eng.reductions = {}
+    eng.reductions.setdefault("spec", True)
+
+
+_applier_tasks_base = applier_tasks
+
+
+def applier_tasks(tier):
+    out = _applier_tasks_base(tier)
+    cases = [(False, set(["histosys"] + FACTOR_TYPES), False), (True, set(["histosys"] + FACTOR_TYPES), False), (False, {"normfactor"}, True), (True, {"histosys", "normsys", "staterror"}, True),
+             (False, set(), False)]
+    if tier != "quick":
+        cases += [(True, {"normfactor", "lumi"}, False), (False, {"histosys"}, True), (True, set(), True)]
+    for batched, present, clip in cases:
+        nm = f"tierP[expected_data,{'batched' if batched else 'unbatched'},{'+'.join(sorted(present)) or 'none'}{',clip' if clip else ''}]"
+        out.append((nm, (lambda b, p, c: lambda T: t_expected_data(T, b, p, c))(batched, present, clip)))
+    return out
